@@ -29,32 +29,53 @@ theorem resolveAux_nolinks {fs : FS} (h : NoLinks fs) (fuel : Nat) :
         | dir => exact ih _
         | link t => exact absurd hk (h e (find_some_mem hf).1 t)
 
-theorem walk_eq_lexNorm {fs : FS} : ∀ (parts : List Name) (cur b : APath),
+theorem upOne_plain {cur : APath} (h0 : cur ≠ []) (hc : ∀ x ∈ cur, x ≠ dotdot) : upOne cur = cur.dropLast := by
+  unfold upOne
+  have : ¬ (cur = [] ∨ cur.getLast? = some dotdot) := by
+    rintro (h | h)
+    · exact h0 h
+    · exact hc dotdot (List.mem_of_getLast? h) rfl
+  rw [if_neg this]
+
+theorem walk_eq_lexNorm {fs : FS} : ∀ (parts : List Name) (cur b : APath), (∀ x ∈ cur, x ≠ dotdot) →
     walk fs cur parts = .ok b → b = lexNorm cur parts := by
   intro parts
   induction parts with
-  | nil => intro cur b h; simp [walk] at h; simp [lexNorm, h]
+  | nil => intro cur b _ h; simp [walk] at h; simp [lexNorm, h]
   | cons c rest ih =>
-    intro cur b h
+    intro cur b hcur h
     rw [walk] at h
     split at h; · simp at h
     split at h; · simp at h
     split at h; · simp at h
     rw [lexNorm]
     split at h
-    · rename_i hc; rw [if_pos hc]; exact ih _ _ h
-    · rename_i hc; rw [if_neg hc]; exact ih _ _ h
+    · rename_i hc
+      rw [if_pos hc]
+      split at h
+      · simp at h
+      · rename_i h0
+        rw [upOne_plain h0 hcur]
+        exact ih _ _ (fun x hx => hcur x (List.dropLast_subset _ hx)) h
+    · rename_i hc
+      rw [if_neg hc]
+      refine ih _ _ ?_ h
+      intro x hx
+      rw [List.mem_append, List.mem_singleton] at hx
+      rcases hx with hx | hx
+      · exact hcur x hx
+      · rw [hx]; exact hc
 
 /-- **containment**: a generated path that passed the check is, once the kernel has resolved it,
     inside the input directory — compared component-wise, so a sibling whose name merely starts
     with the input directory's name is outside -/
-theorem containment (fs : FS) (h : NoLinks fs) (dir : APath) (p : PurePath) (b : APath)
+theorem containment (fs : FS) (h : NoLinks fs) (dir : APath) (hdir : ∀ x ∈ dir, x ≠ dotdot) (p : PurePath) (b : APath)
     (hc : contained fs dir p = .ok true) (hw : walkPath fs dir p = .ok b) : dir <+: b := by
   unfold contained resolvePath at hc
   rw [resolveAux_nolinks h] at hc
   simp only [Except.ok.injEq] at hc
   unfold walkPath at hw
-  rw [walk_eq_lexNorm _ _ _ hw]
+  rw [walk_eq_lexNorm _ _ _ (by split <;> simp_all) hw]
   exact List.isPrefixOf_iff_prefix.mp hc
 
 /-- the string-prefix test the original code used is *not* containment (witness: `in` vs `in2`) -/
